@@ -31,7 +31,8 @@ def gen_history(rng, big):
     for i in range(length):
         r = rng.random()
         if burst_at == i and not added:
-            for _ in range(rng.randint(1001, 1060)):
+            # around the buffer's bound: just below, exactly at, and above 1000 (and well inside the second half)
+            for _ in range(rng.choice([rng.randint(450, 999), 999, 1000, 1001, rng.randint(1001, 1060)])):
                 ops.append(dict(op="log", ms=dict(mtype="m", fields=[["n", {"n": n}]], sers=None)))
                 n += 1
             continue
@@ -135,7 +136,7 @@ def check_case(ctx, case, mo):
 def run(ctx):
     rng = ctx.rng("hist")
     n = ctx.budget(150, 4000)
-    nbig = ctx.budget(3, 40)
+    nbig = ctx.budget(5, 60)
     cases = [dict(env=ENV, prog=gen_history(rng, i < nbig)) for i in range(n)]
     model = lean_driver("Driver/Sys.lean", cases)
     for case, mo in zip(cases, model):
